@@ -74,6 +74,15 @@ class Ctx:
                 msg = 'KNOWN-FINDING: property=%s %s' % (self.prop, k['what'])
                 if msg not in self.known_printed:
                     self.known_printed.append(msg)
+                    if os.environ.get('VERIF_KNOWN_CORPUS') and isinstance(payload.get('spec'), dict):
+                        # development aid: keep one input per listed finding in the corpus, so that every run meets it
+                        d = os.path.join(common.ROOT, 'corpus', self.prop)
+                        os.makedirs(d, exist_ok=True)
+                        slug = re.sub(r'[^a-z0-9]+', '_', str(sorted(k['trigger'].items())).lower())[:60]
+                        fn = os.path.join(d, 'known_%s.json' % slug)
+                        if not os.path.exists(fn):
+                            sp = dict(payload['spec']); sp.pop('id', None)
+                            json.dump(sp, open(fn, 'w'), indent=1)
                 return
         payload = dict(payload)
         payload.update({'property': self.prop, 'kind': kind, 'seed': self.seed})
